@@ -65,4 +65,197 @@ theorem resume_safe (jobs : List (String × Option κ)) (fs : FS κ) (p : String
           intro e; subst e; rw [h] at hex; simp at hex
         rw [fsGet_put_other _ _ _ _ hne]; exact h
 
+/-! ## the collected rows as a multiset do not depend on the input order -/
+
+/-- every row is collected the same number of times whatever the order of the inputs -/
+theorem input_order [DecidableEq ρ] (outcome : ι → Outcome ρ) (s₁ s₂ : List ι) (h : s₁.Perm s₂) (x : ρ) :
+    (batchRows outcome s₁).count x = (batchRows outcome s₂).count x :=
+  (schedule_free outcome s₁ s₂ h).count_eq x
+
+/-- the same rows are present -/
+theorem input_order_mem (outcome : ι → Outcome ρ) (s₁ s₂ : List ι) (h : s₁.Perm s₂) (x : ρ) :
+    x ∈ batchRows outcome s₁ ↔ x ∈ batchRows outcome s₂ :=
+  (schedule_free outcome s₁ s₂ h).mem_iff
+
+/-- the same number of rows is collected -/
+theorem input_order_length (outcome : ι → Outcome ρ) (s₁ s₂ : List ι) (h : s₁.Perm s₂) :
+    (batchRows outcome s₁).length = (batchRows outcome s₂).length :=
+  (schedule_free outcome s₁ s₂ h).length_eq
+
+/-- in particular for the reversed input list -/
+theorem input_order_reverse (outcome : ι → Outcome ρ) (s : List ι) :
+    (batchRows outcome s.reverse).Perm (batchRows outcome s) :=
+  schedule_free outcome _ _ (List.reverse_perm s)
+
+/-- a row is collected iff some input succeeds with it -/
+theorem mem_batchRows (outcome : ι → Outcome ρ) (s : List ι) (x : ρ) :
+    x ∈ batchRows outcome s ↔ ∃ i ∈ s, ∃ rows, outcome i = some rows ∧ x ∈ rows := by
+  unfold batchRows collect
+  simp only [List.mem_flatMap, List.mem_map]
+  constructor
+  · rintro ⟨o, ⟨i, hi, rfl⟩, hx⟩
+    cases ho : outcome i with
+    | none => rw [ho] at hx; simp at hx
+    | some rows => rw [ho] at hx; exact ⟨i, hi, rows, ho, by simpa using hx⟩
+  · rintro ⟨i, hi, rows, ho, hx⟩
+    exact ⟨outcome i, ⟨i, hi, rfl⟩, by rw [ho]; simpa using hx⟩
+
+example : batchRows (fun i : Nat => if i = 1 then none else some [i, 10 * i]) [2, 1, 3] = [2, 20, 3, 30] ∧
+    (batchRows (fun i : Nat => if i = 1 then none else some [i, 10 * i]) [3, 2, 1]).count 20 = 1 := by decide
+
+/-! ## what a run writes -/
+
+theorem fsGet_put_same (fs : FS κ) (p : String) (c : κ) : fsGet (fsPut fs p c) p = some c := by
+  simp [fsGet, fsPut]
+
+/-- processing an input touches no path but its own -/
+theorem processInput_other (ow : Bool) (fs : FS κ) (path : String) (content : Option κ) (q : String)
+    (h : q ≠ path) : fsGet (processInput ow fs path content) q = fsGet fs q := by
+  unfold processInput
+  cases content with
+  | none => rfl
+  | some c =>
+    simp only
+    split
+    · rfl
+    · exact fsGet_put_other fs path q c h
+
+/-- a run leaves alone every path that is not the output path of one of its inputs -/
+theorem batchFiles_other (ow : Bool) (jobs : List (String × Option κ)) (fs : FS κ) (q : String)
+    (h : q ∉ jobs.map Prod.fst) : fsGet (batchFiles ow jobs fs) q = fsGet fs q := by
+  unfold batchFiles
+  induction jobs generalizing fs with
+  | nil => rfl
+  | cons j t ih =>
+    simp only [List.map_cons, List.mem_cons, not_or] at h
+    simp only [List.foldl_cons]
+    rw [ih _ h.2]
+    exact processInput_other ow fs j.1 j.2 q h.1
+
+/-- failed inputs write nothing -/
+theorem failed_writes_nothing (ow : Bool) (fs : FS κ) (path : String) :
+    processInput ow fs path (none : Option κ) = fs := rfl
+
+/-- with `overwrite` on, every input that succeeds ends with the content of this run, whatever
+the file system held before -/
+theorem overwrite_regenerates (jobs : List (String × Option κ)) (fs : FS κ)
+    (hnd : (jobs.map Prod.fst).Nodup) (p : String) (c : κ) (hj : (p, some c) ∈ jobs) :
+    fsGet (batchFiles true jobs fs) p = some c := by
+  induction jobs generalizing fs with
+  | nil => simp at hj
+  | cons j t ih =>
+    simp only [List.map_cons, List.nodup_cons] at hnd
+    have hstep : batchFiles true (j :: t) fs = batchFiles true t (processInput true fs j.1 j.2) := rfl
+    rw [hstep]
+    rcases List.mem_cons.mp hj with hj | hj
+    · subst hj
+      rw [batchFiles_other true t _ p hnd.1]
+      simp [processInput, fsGet_put_same]
+    · exact ih _ hnd.2 hj
+
+/-- without `overwrite`, every input that succeeds and whose output was absent before the run ends
+with the content of this run -/
+theorem resume_complete (jobs : List (String × Option κ)) (fs : FS κ)
+    (hnd : (jobs.map Prod.fst).Nodup) (p : String) (c : κ) (hj : (p, some c) ∈ jobs)
+    (habs : fsGet fs p = none) :
+    fsGet (batchFiles false jobs fs) p = some c := by
+  induction jobs generalizing fs with
+  | nil => simp at hj
+  | cons j t ih =>
+    simp only [List.map_cons, List.nodup_cons] at hnd
+    have hstep : batchFiles false (j :: t) fs = batchFiles false t (processInput false fs j.1 j.2) := rfl
+    rw [hstep]
+    rcases List.mem_cons.mp hj with hj | hj
+    · subst hj
+      apply resume_safe
+      simp [processInput, habs, fsGet_put_same]
+    · apply ih _ hnd.2 hj
+      have hne : p ≠ j.1 := by
+        intro e
+        apply hnd.1
+        rw [← e]
+        exact List.mem_map.mpr ⟨(p, some c), hj, rfl⟩
+      rw [processInput_other false fs j.1 j.2 p hne]
+      exact habs
+
+/-- a resumed run completes the batch: outputs present before are kept (`resume_safe`), the others
+are written -/
+theorem resume_total (jobs : List (String × Option κ)) (fs : FS κ)
+    (hnd : (jobs.map Prod.fst).Nodup) (p : String) (c : κ) (hj : (p, some c) ∈ jobs) :
+    fsGet (batchFiles false jobs fs) p = some ((fsGet fs p).getD c) := by
+  cases h : fsGet fs p with
+  | none => simpa using resume_complete jobs fs hnd p c hj h
+  | some old => simpa using resume_safe jobs fs p old h
+
+/-- non-vacuity: "b" is absent and gets written, "a" is present and kept, "c" fails -/
+example : fsGet (batchFiles false [("a", some 1), ("b", some 2), ("c", none)] [("a", 7)]) "b" = some 2 ∧
+    fsGet (batchFiles false [("a", some 1), ("b", some 2), ("c", none)] [("a", 7)]) "a" = some 7 ∧
+    fsGet (batchFiles false [("a", some 1), ("b", some 2), ("c", none)] [("a", 7)]) "c" = none ∧
+    fsGet (batchFiles true [("a", some 1), ("b", some 2), ("c", none)] [("a", 7)]) "a" = some 1 := by decide
+
+/-- distinct output paths are needed for `overwrite_regenerates`: the last writer wins -/
+example : fsGet (batchFiles true [("a", some 1), ("a", some 2)] ([] : FS Nat)) "a" = some 2 := by decide
+
+/-! ## an interrupted run, resumed, ends where an uninterrupted run ends -/
+
+/-- the content the first successful job for path `p` writes -/
+def firstContent (jobs : List (String × Option κ)) (p : String) : Option κ :=
+  (jobs.find? (fun j => decide (j.1 = p) && j.2.isSome)).bind Prod.snd
+
+/-- without `overwrite` a run is "first writer wins, existing files win over all" -/
+theorem batchFiles_false_get (jobs : List (String × Option κ)) (fs : FS κ) (p : String) :
+    fsGet (batchFiles false jobs fs) p = (fsGet fs p).or (firstContent jobs p) := by
+  induction jobs generalizing fs with
+  | nil => simp [batchFiles, firstContent]
+  | cons j t ih =>
+    have hstep : batchFiles false (j :: t) fs = batchFiles false t (processInput false fs j.1 j.2) := rfl
+    rw [hstep, ih]
+    obtain ⟨q, content⟩ := j
+    cases content with
+    | none =>
+      have : firstContent ((q, none) :: t) p = firstContent t p := by
+        simp [firstContent]
+      rw [this]; rfl
+    | some c =>
+      by_cases hq : q = p
+      · subst hq
+        have hfc : firstContent ((q, some c) :: t) q = some c := by
+          simp [firstContent]
+        rw [hfc]
+        cases hget : fsGet fs q with
+        | some x => simp [processInput, hget]
+        | none => simp [processInput, hget, fsGet_put_same]
+      · have : firstContent ((q, some c) :: t) p = firstContent t p := by
+          simp [firstContent, hq]
+        rw [this, processInput_other false fs q (some c) p (fun e => hq e.symm)]
+
+theorem firstContent_take (jobs : List (String × Option κ)) (k : Nat) (p : String) :
+    (firstContent (jobs.take k) p).or (firstContent jobs p) = firstContent jobs p := by
+  have hsplit : firstContent jobs p = firstContent (jobs.take k ++ jobs.drop k) p := by
+    rw [List.take_append_drop]
+  rw [hsplit]
+  unfold firstContent
+  rw [List.find?_append]
+  cases List.find? (fun j => decide (j.1 = p) && j.2.isSome) (jobs.take k) with
+  | none => simp
+  | some j => simp
+
+/-- a run without `overwrite` that is interrupted after any number of inputs and then started
+again over the whole input list leaves every path as an uninterrupted run would -/
+theorem resume_equals_clean (jobs : List (String × Option κ)) (fs : FS κ) (k : Nat) (p : String) :
+    fsGet (batchFiles false jobs (batchFiles false (jobs.take k) fs)) p = fsGet (batchFiles false jobs fs) p := by
+  rw [batchFiles_false_get, batchFiles_false_get, batchFiles_false_get]
+  cases fsGet fs p with
+  | some x => simp
+  | none => simpa using firstContent_take jobs k p
+
+/-- running the finished batch again changes nothing -/
+theorem rerun_noop (jobs : List (String × Option κ)) (fs : FS κ) (p : String) :
+    fsGet (batchFiles false jobs (batchFiles false jobs fs)) p = fsGet (batchFiles false jobs fs) p := by
+  have := resume_equals_clean jobs fs jobs.length p
+  rwa [List.take_length] at this
+
+example : fsGet (batchFiles false [("a", some 1), ("b", some 2)] (batchFiles false [("a", some 1)] [("z", 0)])) "b"
+    = fsGet (batchFiles false [("a", some 1), ("b", some 2)] [("z", 0)]) "b" := by decide
+
 end E3fpVerif.Props.C15
